@@ -140,6 +140,15 @@ fn c17() {
     println!("C17-1 `##.\\110000 a`: in url resources={via_url}, class lookup returns {:?} (expected reachable one way)", via_cls);
 }
 
+fn c13() {
+    use adblock::resources::{PermissionMask, Resource, ResourceType, MimeType};
+    let mut e = engine(&["||x.com/a.js$script,redirect=noop.js:10", "@@||x.com/a.js$script,redirect=noop.js"], false);
+    e.use_resources([Resource { name: "noop.js".into(), aliases: vec![], kind: ResourceType::Mime(MimeType::ApplicationJavascript),
+        content: base64_encode("1"), dependencies: vec![], permission: PermissionMask::from_bits(0) }]);
+    let r = e.check_network_request(&Request::new("http://x.com/a.js", "http://y.com", "script").unwrap());
+    println!("C13-1 redirect=noop.js:10 with exception redirect=noop.js: redirect={:?} (expected None: same resource)", r.redirect.map(|s| s.len()));
+}
+
 fn c10_1() {
     let mut e = Engine::default();
     let r = std::panic::catch_unwind(std::panic::AssertUnwindSafe(|| {
@@ -168,6 +177,7 @@ fn main() {
     if want("c04") { c04(); }
     if want("c05") { c05(); }
     if want("c08") { c08(); }
+    if want("c13") { c13(); }
     if want("c17") { c17(); }
     if want("c06_1") { c06_1(); }
     if want("c06_2") { c06_2(); }
